@@ -204,3 +204,10 @@ def lean_obligations(prop, expected, report, thorough=False):
         report.violation(path, f"proof obligations of Unimock.Props.{prop} do not check", no_input=True)
         return False
     return True
+
+
+def run_translator(name):
+    """run tools/<name>.py (regenerates a Generated/*.lean file from /repo); returns (ok, one-line report)"""
+    import subprocess, sys
+    p = subprocess.run([sys.executable, os.path.join(VERIF, 'tools', name + '.py')], capture_output=True, text=True)
+    return p.returncode == 0, (p.stdout + p.stderr).strip()[-600:]
